@@ -61,7 +61,7 @@ theorem addEnt_hit (mk : FS → Bytes → FS) {fs : FS} {p : Bytes} {i j : Nat} 
 /-- `add` of a new directory or regular file whose directory is a key. -/
 theorem add_fresh_parent {fs : FS} {p : Bytes} {ino : Inode} {j : Nat} (fuel : Nat) (hl : HL) (u : Bool)
     (hroot : fs.get? dotP = some 0) (hp : Contained p) (hfresh : fs.get? p = none)
-    (hnl : ino.kind ≠ .link)
+    (hnl : ino.kind = .link → (fs.get? ino.link).isSome = true)
     (hj : fs.get? (dirOf p) = some j) (hjl : j < fs.inodes.length) (hjd : (fs.ino j).kind = .dir) :
     add (fuel + 1) fs hl p ino u =
       ((fs.pend p { ino with name := p }).linkChild j fs.inodes.length,
@@ -74,7 +74,11 @@ theorem add_fresh_parent {fs : FS} {p : Bytes} {ino : Inode} {j : Nat} (fuel : N
     rw [pend_ino_lt fs p _ hjl]; exact hjd
   simp only [add, again_fresh hfresh]
   have hl1 : (if (u && decide (ino.kind = Kind.link) && (fs.get? ino.link).isNone) = true then
-      alSet hl ino.link ((alGet hl ino.link).getD [] ++ [p]) else hl) = hl := by simp [hnl]
+      alSet hl ino.link ((alGet hl ino.link).getD [] ++ [p]) else hl) = hl := by
+    by_cases hk : ino.kind = .link
+    · have := hnl hk
+      cases hg : fs.get? ino.link <;> simp [hg] at this ⊢
+    · simp [hk]
   simp only [hl1]
   obtain ⟨f, hf⟩ : ∃ f, 2 * (fs.inodes ++ [{ ino with name := p }]).length + 8 = f + 1 := ⟨_, rfl⟩
   rw [hf]
@@ -89,8 +93,9 @@ def inoNode (x : Inode) : XNode :=
   match x.kind with
   | .dir => .dir
   | .sym => .sym x.link
+  | .link => .hard x.link
   | .special => .special
-  | _ => .file (x.data.getD [])
+  | .reg => .file (x.data.getD [])
 
 theorem inoNode_dir_iff (x : Inode) : inoNode x = .dir ↔ x.kind = .dir := by
   unfold inoNode
@@ -177,7 +182,7 @@ theorem Rep.leaf {skip : List Bytes} {fs : FS} {t : XTree} (h : Rep skip fs t) (
 
 theorem TreeOK.leaf {skip : List Bytes} {fs : FS} {p : Bytes} {x : Inode} {j : Nat}
     (h : TreeOK skip fs) (hp : Contained p) (hfresh : fs.get? p = none) (hps : p ∉ skip)
-    (hx : x.name = p) (hleaf : LeafIno x) (hxl : x.kind = .sym → Contained x.link)
+    (hx : x.name = p) (hleaf : LeafIno x) (hxl : (x.kind = .sym ∨ x.kind = .link) → Contained x.link)
     (hj : fs.get? (dirOf p) = some j) (hjs : dirOf p ∉ skip) (hjd : (fs.ino j).kind = .dir) :
     TreeOK skip (fs.leaf p x j) := by
   have hpd : p ≠ dotP := by intro e; subst e; rw [h.root] at hfresh; cases hfresh
